@@ -1547,7 +1547,7 @@ def bi_gethostname(w, ex, args, kwargs, node):
     w.use('os')
     if ex.choose('gethostname-raises'):
         raise RaiseSig(VExc('OSError'))
-    return VStr(z3.Const(ex.fresh_name('hostname'), Bytes))
+    return VStr(z3.Const('env.hostname', Bytes))        # the machine's host name: one unknown constant (spec name HOSTNAME)
 
 
 def bi_fstat(w, ex, args, kwargs, node):
@@ -1664,7 +1664,7 @@ def bi_async_timeout(w, ex, args, kwargs, node):
 
 def bi_platform_system(w, ex, args, kwargs, node):
     w.use('os')
-    return VStr(z3.Const(ex.fresh_name('platform'), Bytes))
+    return VStr(z3.Const('env.platform', Bytes))        # one unknown constant per run (spec name PLATFORM)
 
 
 def bi_namedtuple(w, ex, args, kwargs, node):
@@ -2092,4 +2092,7 @@ SPEC_CONSTS = {
     'TWO32': lambda w: VInt(TWO32),
     'EMPTY': lambda w: VBytes(b'', False),
     'SLASH': lambda w: VStr('/'),
+    'HOSTNAME': lambda w: VStr(z3.Const('env.hostname', Bytes)),
+    'LOGIN': lambda w: VStr(z3.Const('env.login', Bytes)),
+    'PLATFORM': lambda w: VStr(z3.Const('env.platform', Bytes)),
 }
